@@ -121,7 +121,9 @@ def tlc(module, cfg, workers=None, env=None, timeout=1800, simulate=None, depth=
     that is not a clean finish raises Infra."""
     sd = spec_dir()
     meta = tempfile.mkdtemp(prefix="tlcmeta-", dir=scratch())
-    args = ["java", "-Xss" + xss, "-XX:+UseParallelGC"]
+    jtmp = os.path.join(scratch(), "jtmp")          # TLC unpacks its standard modules into java.io.tmpdir on every run:
+    os.makedirs(jtmp, exist_ok=True)                # keep that inside the check's scratch directory (removed on exit)
+    args = ["java", "-Xss" + xss, "-XX:+UseParallelGC", "-Djava.io.tmpdir=" + jtmp]
     if heap:
         args.append("-Xmx" + heap)
     args += ["-cp", JAR, "tlc2.TLC", "-metadir", meta, "-workers", str(workers or min(NCPU, 16)),
